@@ -383,7 +383,7 @@ def run_to(st, func, upto, rng):
             st.sp = st.fp - 8 * len(func.saved) - func.alloc
         step(st, insn, func)
 
-def make_program(rng, arch, nfuncs=8):
+def make_program(rng, arch, nfuncs=8, force_last_noreturn=False):
     mk = make_x86 if arch == "x86" else make_a64
     funcs = [mk(rng, "f%d" % i) for i in range(nfuncs)]
     need = ["frame", "frameless", "dwarf-frame", "null-leaf"] + (["indirect", "frameless0"] if arch == "x86" else ["frame-pairs"])
@@ -426,7 +426,8 @@ def make_program(rng, arch, nfuncs=8):
                 f.noreturn = True
     rng.shuffle(funcs)
     nr = [f for f in funcs if getattr(f, "noreturn", False)]
-    if nr and rng.chance(1, 2):
+    lastnr = rng.chance(1, 2) if nr else False       # (drawn as before; the C13 stream can insist)
+    if nr and (lastnr or force_last_noreturn):
         # the last function of __text ends in a call and __stubs follows it without a gap: the return address of that
         # call is the first byte of __stubs
         last = rng.choice(nr)
